@@ -161,6 +161,14 @@ func c13Execute(t *testing.T, bases [2]*c12Base, sc c13Script) *c13Run {
 			counts[i]++
 			return sc.Faults[i].Every <= 1 || counts[i]%sc.Faults[i].Every == 0
 		}
+		failed := func(op *kit.Op, err error) error { // an operation that fails here is over
+			mu.Lock()
+			tt := run.Times[op.Idx]
+			tt.After = time.Now()
+			run.Times[op.Idx] = tt
+			mu.Unlock()
+			return err
+		}
 		be.SetFault(func(op *kit.Op, ph kit.Phase) error {
 			if op.Proc == c13Other {
 				return nil
@@ -191,7 +199,7 @@ func c13Execute(t *testing.T, bases [2]*c12Base, sc c13Script) *c13Run {
 						case <-tm.C:
 						case <-endCh:
 							tm.Stop()
-							return kit.ErrPermanent
+							return failed(op, kit.ErrPermanent)
 						}
 						continue
 					}
@@ -200,7 +208,7 @@ func c13Execute(t *testing.T, bases [2]*c12Base, sc c13Script) *c13Run {
 					}
 					match := f.Kind == "fail-all" || (f.Kind == "fail-save" && op.Kind == kit.OpSave) || (f.Kind == "fail-remove" && op.Kind == kit.OpRemove) || (f.Kind == "fail-list" && op.Kind == kit.OpList)
 					if match && hit(i) {
-						return kit.ErrInjected
+						return failed(op, kit.ErrInjected)
 					}
 				}
 				mu.Lock()
@@ -446,30 +454,53 @@ func c13Judge(run *c13Run, st map[string]int64) (viol [][2]string) {
 		}
 		key := "holder-runs-with-stale-lock"
 		acqAge := run.Acquired.Sub(c13FirstLockTime(run))
-		// was the refresh goroutine busy inside the backend when the monitor's forced refresh became
-		// due (refreshabilityTimeout after the newest lock timestamp)? Either in an operation that
-		// hangs, or inside the retry layer (a lock-file Save failed during the last 15 minutes and
-		// is still being retried)
-		due := lastLT.Add(lockerInst.refreshabilityTimeout)
-		busy := false
+		// Known defect "refresh goroutine blocked": the monitor's forced refresh becomes due
+		// refreshabilityTimeout after what the MONITOR considers the last refresh (return of Lock,
+		// completion of a regular refresh = its final Remove, end of a forced refresh). If at that
+		// moment (+ one poll interval) the refresh goroutine sits inside a backend operation —
+		// slow, hanging, or (retry layer) failing and being retried — the request cannot be
+		// handed over, and if that refresh then succeeds both goroutines deadlock.
+		bases := []time.Time{run.Acquired}
 		for _, op := range run.Journal {
-			if op.Proc != 1 || op.H.Type != backend.LockFile {
-				continue
+			if op.Proc == 1 && op.H.Type == backend.LockFile && op.Kind == kit.OpRemove && op.Applied {
+				bases = append(bases, run.Times[op.Idx].After)
 			}
-			tt := run.Times[op.Idx]
-			if tt.Enter.IsZero() {
-				continue
+		}
+		for _, iv := range frozenIv {
+			bases = append(bases, iv.To)
+		}
+		// follow the monitor: its clock restarts at every base; when a forced refresh becomes due
+		// before the next base, the refresh goroutine must be free to take the request
+		sort.Slice(bases, func(i, j int) bool { return bases[i].Before(bases[j]) })
+		busy := false
+		for i, b := range bases {
+			due := b.Add(lockerInst.refreshabilityTimeout)
+			if b.IsZero() || (i+1 < len(bases) && !bases[i+1].After(due)) {
+				continue // refreshed again in time
 			}
-			done := tt.After
-			if done.IsZero() {
-				done = tt.Before
+			if due.After(cur) {
+				break
 			}
-			if !tt.Enter.After(due) && (done.IsZero() || done.After(due)) {
-				busy = true // hanging operation
+			for _, op := range run.Journal {
+				if op.Proc != 1 || op.H.Type != backend.LockFile {
+					continue
+				}
+				tt := run.Times[op.Idx]
+				if tt.Enter.IsZero() || tt.Enter.After(due.Add(time.Second)) {
+					continue
+				}
+				done := tt.After
+				if done.IsZero() {
+					done = tt.Before // refused by the backend itself (e.g. not found): instantaneous
+				}
+				if !done.IsZero() && done.After(due) {
+					busy = true // inside an operation
+				}
+				if run.Sc.Retry && op.Kind == kit.OpSave && op.Err != nil && tt.Enter.After(due.Add(-16*time.Minute)) {
+					busy = true // being retried
+				}
 			}
-			if run.Sc.Retry && op.Kind == kit.OpSave && op.Err != nil && !tt.Enter.After(due) && tt.Enter.After(due.Add(-16*time.Minute)) {
-				busy = true // being retried
-			}
+			break
 		}
 		switch {
 		case acqAge > c13Margin:
@@ -617,6 +648,10 @@ func c13Fixed() []c13Script {
 	add("lock-removed-and-saves-fail", c13Script{Excl: true, RunFor: 70 * m, Faults: []c13Fault{{Kind: "fail-save", From: 6 * m, For: 25 * m}, {Kind: "remove-lock", From: 8 * m}}})
 	add("lock-removed-during-forced-refresh", c13Script{Excl: true, RunFor: 70 * m, Faults: []c13Fault{{Kind: "fail-save", From: 6 * m, For: 21 * m}, {Kind: "remove-during-forced", From: 6 * m}}})
 	add("list-fails-during-forced-refresh", c13Script{RunFor: 70 * m, Faults: []c13Fault{{Kind: "fail-save", From: 6 * m, For: 21 * m}, {Kind: "fail-list", From: 20 * m, For: 10 * m}}})
+	// slow backend + failing refreshes: the margin between refreshabilityTimeout and
+	// staleLockTimeout has to absorb the latency of the operations
+	add("slow-backend-saves-fail", c13Script{Excl: true, Latency: 20 * time.Second, RunFor: 70 * m, Faults: []c13Fault{{Kind: "fail-save", From: 12 * m}}})
+	add("very-slow-backend-lockops-fail", c13Script{Latency: 2 * m, RunFor: 70 * m, Faults: []c13Fault{{Kind: "fail-all", From: 7 * m}}})
 	add("retry-layer-plain", c13Script{Excl: true, Retry: true, RunFor: 40 * m})
 	add("retry-layer-short-outage", c13Script{Retry: true, RunFor: 60 * m, Faults: []c13Fault{{Kind: "fail-all", From: 6 * m, For: 3 * m}}})
 	return out
